@@ -18,6 +18,11 @@ import core
 FUEL = 400          # tick budget, the same for the model and the implementation
 
 
+class Budget(BaseException):
+    """the tick / send budget shared with the model ran out: the run is cut and reported as outcome `fuel`
+    (the model says `fuel` as well when its own budget runs out; otherwise the two sides disagree)"""
+
+
 class FakeBase(BaseException):
     """a BaseException that is neither KeyboardInterrupt nor SystemExit nor an Exception"""
 
@@ -137,7 +142,7 @@ def build(case, ctx=None, tasker_factory=None):
                 control = yield status
                 ctx.nsend += 1
                 if ctx.nsend > 40 * core_fuel():
-                    raise core.HarnessTimeout("send budget exceeded")
+                    raise Budget("send budget exceeded")
                 rec = [ctx.tick, self.tid, control, self.store.stamp, None, None, caller_phase()]
                 ctx.events.append(rec)
                 acts = self.acts_at(n)
@@ -152,7 +157,7 @@ def build(case, ctx=None, tasker_factory=None):
                             return
                         else:
                             raise EXC[a[1]](a[2])
-                except core.HarnessTimeout:
+                except (core.HarnessTimeout, Budget):
                     raise
                 except BaseException as ex:
                     rec[4], rec[5] = "raise:" + exc_name(ex), self.period
@@ -196,8 +201,8 @@ def build(case, ctx=None, tasker_factory=None):
             seen[0] += 1
             if seen[0] > 1:
                 ctx.tick += 1
-                if ctx.tick > core_fuel():
-                    raise core.HarnessTimeout("tick budget exceeded")
+                if ctx.tick >= core_fuel():
+                    raise Budget("tick budget exceeded")
                 hook = getattr(ctx, "boundary_hook", None)
                 if hook is not None:
                     hook(ctx.tick - 1)
@@ -220,6 +225,8 @@ def run_case(case, tasker_factory=None, prepare=None):
         outcome = "returned"
     except core.HarnessTimeout:
         raise
+    except Budget:
+        outcome = "fuel"
     except BaseException as ex:
         outcome = "raised " + exc_name(ex)
     lines = [outcome]
